@@ -28,7 +28,7 @@ from .tlc import MachineryError
 
 ROOT = os.path.dirname(os.path.dirname(os.path.abspath(__file__)))
 PY = "/venv/bin/python"
-ALL_FIXES = ["F1", "F2", "F3", "F4", "F7", "F9", "F10"]
+ALL_FIXES = ["F1", "F2", "F3", "F4", "F7", "F9", "F10", "F22"]
 NCPU = os.cpu_count() or 4
 
 # ---------------------------------------------------------------------------------------
@@ -128,17 +128,35 @@ import hashlib
 CACHE = os.path.join(ROOT, ".cache")
 
 
-def spec_hash():
+def module_closure(module):
+    """module file + everything it EXTENDS / INSTANCEs that lives in /verif/spec"""
+    import re
+    seen, todo = [], [module if module.endswith(".tla") else module + ".tla"]
+    while todo:
+        m = todo.pop()
+        if m in seen or not os.path.exists(os.path.join(tlc.SPEC_DIR, m)):
+            continue
+        seen.append(m)
+        src = open(os.path.join(tlc.SPEC_DIR, m)).read()
+        for line in re.findall(r"^\s*(?:EXTENDS|INSTANCE)\s+(.*)$", src, re.M):
+            for name in re.split(r"[,\s]+", line.strip()):
+                if name:
+                    todo.append(name + ".tla")
+    return sorted(seen)
+
+
+def spec_hash(module="MC.tla"):
     h = hashlib.sha256()
-    for f in sorted(glob.glob(os.path.join(tlc.SPEC_DIR, "*.tla"))):
-        h.update(open(f, "rb").read())
+    for f in module_closure(module):
+        h.update(f.encode())
+        h.update(open(os.path.join(tlc.SPEC_DIR, f), "rb").read())
     return h.hexdigest()[:16]
 
 
-def cached(kind, keyobj, compute):
+def cached(kind, keyobj, compute, module="MC.tla"):
     """Results that depend ONLY on /verif/spec (never on /repo): design-level runs and catalogues.
     Keyed by the content of every spec module and the constants."""
-    key = hashlib.sha256(json.dumps([kind, spec_hash(), keyobj], sort_keys=True).encode()).hexdigest()[:24]
+    key = hashlib.sha256(json.dumps([kind, spec_hash(module), keyobj], sort_keys=True).encode()).hexdigest()[:24]
     path = os.path.join(CACHE, f"{kind}_{key}.json")
     if os.path.exists(path):
         try:
